@@ -795,27 +795,43 @@ def hist_walks(dot, rng, budget, maxlen):
     init_of = {fs_key(nodes[nid]['fs']): nid for nid in g.init}
     uncovered = set(targets)
 
+    # A name that has been looked up never becomes "never looked up" again: a walk can take the transitions whose
+    # previous answers include "never" only before it looks that name up.  So a walk exhausts the transitions of its
+    # present never-set (without looking those names up) before it shrinks the set.
+    def mask_of(key):
+        return frozenset(n for n, v in zip(names, key[1]) if v < 0)
+    cnt_a = collections.Counter()      # uncovered transitions by never-set, the looked-up name not in the set
+    cnt_b = collections.Counter()      # ... the looked-up name in the set (its first lookup)
+    for t in targets:
+        (cnt_b if t[1] in mask_of(t[0]) else cnt_a)[mask_of(t[0])] += 1
+
+    def cover(t):
+        if t in uncovered:
+            uncovered.discard(t)
+            (cnt_b if t[1] in mask_of(t[0]) else cnt_a)[mask_of(t[0])] -= 1
+
     def step_of(edge, src, dst, via='which'):
         if edge[0] == 'M':
             return {'op': 'mutate', 'd': edge[1], 'n': edge[2], 'k': edge[3]}
         n = edge[1]
-        uncovered.discard((pk[src], n))
+        cover((pk[src], n))
         return {'op': 'lookup', 'via': via, 'n': n, 'last': nodes[src]['last'][n], 'want': nodes[dst]['last'][n]}
 
-    def nearest(src):
-        """shortest path (list of (edge, dst)) to a state with a Lookup transition not yet taken"""
+    def nearest(src, keep, goal_names):
+        """shortest path (list of (src, edge, dst)) to a state with an uncovered Lookup transition of a name in
+        goal_names, not looking up any name of `keep` on the way"""
         seen = {src}
-        frontier = [(src, None)]
+        frontier = [src]
         back = {}
         while frontier:
             nxt = []
-            for nid, _ in frontier:
+            for nid in frontier:
                 for edge, dst in adj[nid]:
-                    if dst in seen:
+                    if dst in seen or (edge[0] == 'L' and edge[1] in keep):
                         continue
                     seen.add(dst)
                     back[dst] = (nid, edge)
-                    if any((pk[dst], n) in uncovered for n in names):
+                    if any((pk[dst], n) in uncovered for n in goal_names):
                         path = []
                         cur = dst
                         while cur != src:
@@ -823,8 +839,32 @@ def hist_walks(dot, rng, budget, maxlen):
                             path.append((prev, e, cur))
                             cur = prev
                         return path[::-1]
-                    nxt.append((dst, None))
+                    nxt.append(dst)
             frontier = nxt
+        return None
+
+    def plan(nid):
+        """('take', name) | ('go', path) | None"""
+        mask = mask_of(pk[nid])
+        rest = [n for n in names if n not in mask]
+        here = [n for n in rest if (pk[nid], n) in uncovered]
+        if here:
+            return ('take', rng.choice(here))
+        if cnt_a[mask] > 0:
+            path = nearest(nid, mask, rest)
+            if path:
+                return ('go', path)
+        here = [n for n in mask if (pk[nid], n) in uncovered]
+        if here:
+            return ('take', rng.choice(sorted(here)))
+        if cnt_b[mask] > 0:
+            path = nearest(nid, mask, sorted(mask))
+            if path:
+                return ('go', path)
+        if any((cnt_a[m] > 0 or cnt_b[m] > 0) and m < mask for m in set(cnt_a) | set(cnt_b)):
+            path = nearest(nid, (), names)
+            if path:
+                return ('go', path)
         return None
     walks = []
     cur_fs = fs_key([{n: 'missing' for n in names} for _ in range(ndirs)])
@@ -832,9 +872,11 @@ def hist_walks(dot, rng, budget, maxlen):
         nid = init_of[cur_fs]
         steps = []
         while len(steps) < maxlen:
-            here = [n for n in names if (pk[nid], n) in uncovered]
-            if here:
-                n = rng.choice(here)
+            p = plan(nid)
+            if p is None:
+                break
+            if p[0] == 'take':
+                n = p[1]
                 t = (pk[nid], n)
                 vias = ['which'] + ([via_of[t]] if t in via_of else [])
                 rng.shuffle(vias)          # a launch is sometimes the first lookup in that state, sometimes the second
@@ -843,8 +885,8 @@ def hist_walks(dot, rng, budget, maxlen):
                     steps.append(step_of(('L', n), nid, dst, via))
                     nid = dst
                 continue
-            path = nearest(nid)
-            if path is None or (steps and len(steps) + len(path) > maxlen):
+            path = p[1]
+            if steps and len(steps) + len(path) > maxlen:
                 break
             for src, edge, dst in path:
                 steps.append(step_of(edge, src, dst))
